@@ -36,6 +36,10 @@ CLAIMED = {
   "text": "Bounded symbolic model checking of the node's own key generation and threshold recovery (groupNodeInfo.handleSharePiece/aggregateKeys, groupsig.ShareSeckey/AggregateSeckeys/AggregatePubkeys/Sign/VerifySig/RecoverGroupSignature/recoverSignature, model.GroupSignGenerator) with every dealer polynomial coefficient symbolic: each member's share verifies under its public share, all members derive the group key of the summed dealer secrets, and every threshold subset in every arrival order and every map iteration order recovers the one signature that verifies under the group key.",
   "note": "Trusted: gosym and its models, z3, and the symbolic prime-order algebra standing in for the bn256 curve (validated on sampled paths against the real pairing library). Member ids are concrete tables, group sizes 3..7 (9 for subsets): larger groups and symbolic ids are outside.",
  },
+ "C15": {
+  "text": "Bounded symbolic model checking of the real round1.Update / groupSignGenerator / round2.checkSignature over the symbolic pairing-group algebra: for every sequence of verify messages within the bound, from members and non-members, honest and of seven Byzantine kinds (signature over a different symbolic hash, another member's share, foreign bytes, for the block share and for the beacon share), every share that enters a recovery set is its sender's valid share for this block's hash / the previous beacon value, the sets hold members only, the recovered signatures verify under the group key once the threshold is reached, and one faulty sender cannot stop finalisation.",
+  "note": "Trusted: gosym and its models, z3, the symbolic prime-order algebra for bn256 (validated on sampled paths against the real pairing library). One genuine defect found and fixed (share verified against the sender-chosen data hash). Message sequences of 2 (thorough 3), groups of 3 and 5.",
+ },
  "C16": {
   "text": "Bounded symbolic model checking of the parts of the VRF path that are integer/byte computations: (a) header transport - for every 80-byte proof, the big-integer prove value (leading zeros dropped) padded back by the real tryZeroPadding copies is the original proof, and padding never panics for any length; (b) qualification - through the real validateProve/calQn (big.Rat + float64 modelled as reals with an interval rounding model), for every 256-bit lottery value and each enumerated stake/working/height combination there is no panic and an accepted proof has 1 <= qn <= MaxQN.",
   "note": "Trusted: gosym and its models, z3, interval model of float64 rounding. The elliptic-curve clauses of the property (completeness, mutation soundness, unique lottery output) are NOT decided: edwards25519 arithmetic and SHA-512 on symbolic input are outside the encoding's reach. One genuine defect found and fixed (qn = MaxQN+1 for lottery values in the top sliver).",
